@@ -541,8 +541,23 @@ def run(tier, seed):
             # headers without the comparison R2 relies on
             Fc = ctx.facts(cd)
 
+            # the decoder is only ever entered with data_len >= its registry minimum (C08 R2 / the dispatcher's own test): edges taken under
+            # `data_len < k` for k up to that minimum are not ways the decoder can run
+            from ..exthdr import registry_entries
+            try:
+                minlen = max([ml_ for (num_, dec_, ml_) in (registry_entries(mod) or []) if dec_ in (cd.name, cd.cname)] or [2])
+            except Exception:
+                minlen = 2
+            short = set()
+            for b_ in cd.blocks:
+                for x_ in b_.succs:
+                    for f_ in Fc.edge_facts(b_.id, x_):
+                        if f_[0] in ("ult", "ule") and M.match(("param", 2), f_[1], {}) is not None and is_const(f_[2]) and \
+                                (const_val(f_[2]) or 0) + (1 if f_[0] == "ule" else 0) <= minlen:
+                            short.add((b_.id, x_))
+
             def skippable(st):
-                cut = {(st.block.id, x) for x in cd.blocks[st.block.id].succs}
+                cut = {(st.block.id, x) for x in cd.blocks[st.block.id].succs} | short
                 for v_, pb_, b_ in success_edges(Fc, cd):
                     tgt = pb_ if pb_ is not None else b_
                     if st.block.id == tgt:
